@@ -73,7 +73,7 @@ def _cheap_minimise(ctx):
     budget and all minimisations of a run together get at most MIN_BUDGET_S seconds of replay time (after that an
     untried candidate counts as "does not fail", i.e. the reduction stops where it is)."""
     import time
-    MIN_BUDGET_S = 25.0
+    MIN_BUDGET_S = 15.0
     minimise0 = ctx._minimise
     mismatch0 = ctx._mismatch
     memo = {}
@@ -135,11 +135,10 @@ def run(ctx):
         "detached closed limiter; it does not touch the tree",
     ]
     ctx.assumptions += [
-        "the theorems are about non-negative capacities (the model uses Nat; a negative capacity makes `granted <= "
-        "capacity` false with nothing granted); negative capacities (-1, MinInt) are nevertheless RUN: the driver feeds "
-        "them to the model as 0 (every decision of the code compares an amount >= 1 with capacity or capacity - used, "
-        "both < 1 either way) and prints Cap() from the raw values; capacities are Go ints, i.e. <= MaxInt (a fact of "
-        "the type); no smaller bound is assumed: "
+        "capacities: New / Limiter.New / SetCap store max(capacity, 0) (commit 4e94d2c), which is the model's Nat "
+        "capacity (the driver maps a negative argument to 0, Cap() reports 0); negative arguments incl. -1, -MaxInt, "
+        "MinInt are generated and in the corpus; capacities are Go ints, i.e. <= MaxInt (a fact of the type); no "
+        "smaller bound is assumed: "
         "C16.int_arithmetic_exact shows 0 <= used, last, queued amounts <= MaxInt and used <= capacity, so every "
         "`capacity - used` of the code is exact and `used += amount` cannot wrap; both ties run capacities and "
         "amounts at MaxInt, MaxInt-1, MaxInt/2+1 with usage summing past MaxInt within a period",
